@@ -81,6 +81,13 @@ func genC04(r *rand.Rand, tier string) *Case {
 		}
 		ws = append(ws, tx)
 	}
+	if r.IntN(3) == 0 {
+		// staggered: the writers' bodies overlap (all read the same snapshot) but their commits
+		// run one after the other, so every later committer must refetch and merge
+		for i := 1; i < len(ws); i++ {
+			ws[i].CommitAfter = ws[i-1].Name
+		}
+	}
 	c.Phases = append(c.Phases, Phase{Kind: "group", Txns: ws})
 	c.Phases = append(c.Phases, Phase{Kind: "observe", Label: "warm"}, Phase{Kind: "observe_cold", Label: "cold"})
 	return c
@@ -116,6 +123,21 @@ func oracleC04(c *Case, res *Result) []Violation {
 			}
 			if pi == gi && tag == "" {
 				tag = fmt.Sprintf("/writers%d", len(ph.Txns))
+				if len(ph.Txns) > 1 && ph.Txns[1].CommitAfter != "" {
+					tag += "/staggered"
+				}
+				for _, ph2 := range c.Phases[:pi] {
+					if ph2.Kind == "restart" {
+						tag += "/coldcache"
+						break
+					}
+				}
+				for _, sp := range c.Stores {
+					if sp.Slot == 2 {
+						tag += "/slot2" // minimum slot length: every insert into a full leaf splits
+						break
+					}
+				}
 				for _, sp := range c.Stores {
 					if len(m[sp.Name]) == 0 {
 						tag += "/emptystore"
